@@ -191,10 +191,18 @@ pub fn near_miss_types() -> Vec<Ty> {
         Ty::Struct("bytes".to_string() + "32\u{0}"),
         Ty::Struct("uint256[0]".into()),
         Ty::Struct("string memory".into()),
+        // widths that equal the standard one only after wrapping to 8, 16, 32 or 64 bits
+        Ty::Struct("uint4294967552".into()),
+        Ty::Struct("uint65792".into()),
+        Ty::Struct("uint18446744073709551872".into()),
+        Ty::Struct("bytes288".into()),
+        Ty::Struct("bytes65568".into()),
+        Ty::Struct("bytes4294967328".into()),
+        Ty::Struct("bytes18446744073709551648".into()),
     ]
 }
 
-const FOREIGN: [&str; 20] = [
+const FOREIGN: [&str; 30] = [
     "description",
     "Name",
     "chainid",
@@ -217,6 +225,44 @@ const FOREIGN: [&str; 20] = [
     ",",
     "salt)EIP712Domain(string name",
     "name\u{0}",
+    // names that become a standard name under a Unicode normalisation, case folding or removal of ignorable characters
+    "\u{ff4e}\u{ff41}\u{ff4d}\u{ff45}",
+    "\u{17f}alt",
+    "\u{ff56}\u{ff45}\u{ff52}\u{ff53}\u{ff49}\u{ff4f}\u{ff4e}",
+    "chain\u{ff29}d",
+    "\u{ff53}\u{ff41}\u{ff4c}\u{ff54}",
+    "na\u{ad}me",
+    "name\u{200b}",
+    "\u{feff}salt",
+    "verifyingContract\u{200d}",
+    "ver\u{17f}ion",
+];
+
+/// names that are not a standard name but become one under NFKC/NFKD, case folding, trimming or removal of
+/// ignorable characters; with the index of that standard field
+const LOOKALIKE: [(&str, usize); 22] = [
+    ("\u{ff4e}\u{ff41}\u{ff4d}\u{ff45}", 0),
+    ("Name", 0),
+    ("NAME", 0),
+    (" name", 0),
+    ("name\u{200b}", 0),
+    ("na\u{ad}me", 0),
+    ("\u{ff56}\u{ff45}\u{ff52}\u{ff53}\u{ff49}\u{ff4f}\u{ff4e}", 1),
+    ("ver\u{17f}ion", 1),
+    ("Version", 1),
+    ("version ", 1),
+    ("chain\u{ff29}d", 2),
+    ("chainid", 2),
+    ("chainID", 2),
+    ("chain_id", 2),
+    ("\u{ff43}hainId", 2),
+    ("verifyingcontract", 3),
+    ("verifying_contract", 3),
+    ("veri\u{fb01}yingContract", 3),
+    ("verifyingContract\u{200d}", 3),
+    ("\u{17f}alt", 4),
+    ("\u{ff53}\u{ff41}\u{ff4c}\u{ff54}", 4),
+    ("\u{feff}salt", 4),
 ];
 
 fn enumerate(seed: u64) -> Vec<Case> {
@@ -283,6 +329,26 @@ fn enumerate(seed: u64) -> Vec<Case> {
                 ms.insert(pos, (f.to_string(), [Ty::String, Ty::Uint(256), Ty::Bool][pos % 3].clone()));
                 out.push(build(Some(&ms), "valid", "foreign-field", next()));
             }
+        }
+    }
+    // (viii) a look-alike of a standard name, with that field's standard type, at that field's standard place
+    for mask in 0u8..32 {
+        for (name, si) in LOOKALIKE {
+            if mask & (1 << si) != 0 {
+                continue;
+            }
+            let mut ms: Vec<(String, Ty)> = vec![];
+            for i in 0..5 {
+                if i == si {
+                    ms.push((name.to_string(), stdm[i].1.clone()));
+                } else if mask & (1 << i) != 0 {
+                    ms.push(stdm[i].clone());
+                }
+            }
+            out.push(build(Some(&ms), "valid", "lookalike-field", next()));
+            // ... and with the domain VALUE spelled with the standard names
+            let vals: Vec<(String, Ty)> = (0..5).filter(|i| *i == si || mask & (1 << i) != 0).map(|i| stdm[i].clone()).collect();
+            out.push(build_ext(Some(&ms), Some(&vals), "valid", "lookalike-field", next()));
         }
     }
     // (v) no EIP712Domain entry at all: with an empty domain value, and with a domain value that carries the
@@ -409,12 +475,12 @@ fn judge_cli(c: &Case, cls: &mut Classifier) -> Verdict {
 }
 
 pub fn run(ctx: &mut Ctx) {
-    ctx.rule = "EIP712Domain member lists: (i) all 326 duplicate-free orderings of subsets of the five standard fields, each with a valid message, a malformed message and with EIP712Domain as primaryType; (ii) all 3905 sequences of length 1..5 over the five names with repetition; (iii) each of the 31 well-formed domains with one field's type replaced by each of 32 near-miss types (17 other EIP-712 types and 15 raw type strings such as uint, int, String, 'bytes32 ', uint0256); (iv) a foreign field (20 names, incl. names embedding type-string syntax such as 'name,string version') inserted at every position of each well-formed domain; (v) no EIP712Domain entry, with an empty domain value and with each of the 31 standard-field selections as domain value; (vi) generated mixtures; (vii) ill-formed domain types whose value leaves out the offending members and keeps the well-formed ones. Otherwise domain values are generated to match the declared members so the domain type is the only variable. Oracle: truth table accepted <=> non-empty, standard (name,type) pairs, no repeats, standard relative order; accepted documents must hash to the reference domain separator/digest; refused ones are Err whatever the message is; a CLI sample runs `hash typeddata`, `hash typeddata --message-hash` (file and stdin) and `sign typeddata` on every well-formed domain and a stride of the ill-formed ones: all commands must apply the same rule (digests equal the reference / error exit with empty stdout). Non-trivial: all; distinct by document.".into();
+    ctx.rule = "EIP712Domain member lists: (i) all 326 duplicate-free orderings of subsets of the five standard fields, each with a valid message, a malformed message and with EIP712Domain as primaryType; (ii) all 3905 sequences of length 1..5 over the five names with repetition; (iii) each of the 31 well-formed domains with one field's type replaced by each of 39 near-miss types (17 other EIP-712 types and 22 raw type strings such as uint, int, String, 'bytes32 ', uint0256, and widths that equal 256 or 32 only after wrapping to 8/16/32/64 bits); (iv) a foreign field (30 names, incl. look-alikes under Unicode normalisation and names embedding type-string syntax such as 'name,string version') inserted at every position of each well-formed domain; (v) no EIP712Domain entry, with an empty domain value and with each of the 31 standard-field selections as domain value; (vi) generated mixtures; (vii) ill-formed domain types whose value leaves out the offending members and keeps the well-formed ones; (viii) 22 look-alikes of a standard name (full-width and ligature forms, long s, other letter case, snake case, trailing/leading blank, zero-width and soft-hyphen insertions) with that field's standard type at that field's standard place, beside every selection of the other four, the domain value spelled once with the look-alike and once with the standard name. Otherwise domain values are generated to match the declared members so the domain type is the only variable. Oracle: truth table accepted <=> non-empty, standard (name,type) pairs, no repeats, standard relative order; accepted documents must hash to the reference domain separator/digest; refused ones are Err whatever the message is; a CLI sample runs `hash typeddata`, `hash typeddata --message-hash` (file and stdin) and `sign typeddata` on every well-formed domain and a stride of the ill-formed ones: all commands must apply the same rule (digests equal the reference / error exit with empty stdout). Non-trivial: all; distinct by document.".into();
     ctx.assumptions = vec![];
     ctx.replay_known_and_regressions(&replay);
     let cases = enumerate(ctx.seed);
     ctx.run_cases("enumerated", &cases, judge);
-    ctx.exhaustive_parts.push("326 orderings; 3905 sequences with repetition; 31 x fields x 32 type substitutions; foreign field at every position; missing domain type".into());
+    ctx.exhaustive_parts.push("326 orderings; 3905 sequences with repetition; 31 x fields x 39 type substitutions; 22 look-alike names x 16 selections; foreign field at every position; missing domain type".into());
     let n = ctx.tier.pick(50_000, 500_000);
     ctx.run_prop("mixture", n, || crate::gen::tape(300).prop_map(gen_mixture), judge);
     // CLI sample: every command that reads typed data must apply the same domain-type rule
